@@ -195,12 +195,17 @@ def field(i, fp):
             got = getattr(obj, "_" + fld)
             vx.prove(f"C12/field/{lab}/ctor_stores_value", True if got is v else got == v)
         inst = _valid_instance(cls)
+        held_before = getattr(inst, "_" + fld)
         try:
             setattr(inst, fld, v)
             ok_s = True
         except ValueError:
             ok_s = False
         vx.prove(f"C12/field/{lab}/setter_eq_documented", doc == ok_s, route="attribute")
+        if not ok_s:
+            # a refused value is not kept: the object still holds what it held before
+            held_after = getattr(inst, "_" + fld)
+            vx.prove(f"C12/field/{lab}/refused_value_not_stored", held_after is held_before or held_after == held_before, route="attribute:refused")
         if ok_s:
             vx.prove(f"C12/field/{lab}/setter_stores_value", True if getattr(inst, "_" + fld) is v else getattr(inst, "_" + fld) == v)
         if cls in SWEEP_KEY and not fp:
@@ -426,11 +431,15 @@ def replay(oid, kwargs, model, data):
         except ValueError:
             res["constructor"] = False
         inst = _valid_instance(cls)
+        held_before = getattr(inst, "_" + fld)
         try:
             setattr(inst, fld, v)
             res["attribute"] = True
         except ValueError:
             res["attribute"] = False
+            held_after = getattr(inst, "_" + fld)
+            res["attribute:refused"] = bool(held_after is held_before or held_after == held_before)
+            res["attribute:holds_after_refusal"] = repr(held_after)
         if cls in SWEEP_KEY:
             from pyxel.pipelines import DetectionPipeline, Processor
 
@@ -441,6 +450,8 @@ def replay(oid, kwargs, model, data):
                     res[r_ + ":applied"] = (held == v) == doc or bool(held == v)
                     res[r_ + ":holds"] = held
         det = {"value": v, "documented_accepts": doc, **res}
+        if route == "attribute:refused":
+            return res.get("attribute:refused") is False, det
         if route is not None and route.endswith(":applied"):
             return res.get(route) is False or res.get(route.split(":")[0] + ":holds") != v, det
         if route in res:
